@@ -8,6 +8,7 @@ import (
 	"fmt"
 	"io"
 	"net/http"
+	"os"
 	"strings"
 	"sync"
 	"sync/atomic"
@@ -45,6 +46,9 @@ type Case struct {
 	// SizeDefault: translators.anthropic.max_message_size is left at 0 ("use the default"), a
 	// documented way to write the configuration; otherwise it is set explicitly
 	SizeDefault bool `json:"size_default,omitempty"`
+	// Inspector: translators.anthropic.inspector.enabled (the request inspector logs what it sees;
+	// it must not change what is forwarded)
+	Inspector bool `json:"inspector,omitempty"`
 }
 
 var (
@@ -96,7 +100,7 @@ func respond(w http.ResponseWriter, r *http.Request, s *backend.Seen) {
 }
 
 func getRig(c Case) (*rigT, error) {
-	key := fmt.Sprintf("%s/%v/%s/%v", c.Engine, c.Passthrough, c.Balancer, c.SizeDefault)
+	key := fmt.Sprintf("%s/%v/%s/%v/%v", c.Engine, c.Passthrough, c.Balancer, c.SizeDefault, c.Inspector)
 	rigMu.Lock()
 	defer rigMu.Unlock()
 	if r, ok := rigs[key]; ok {
@@ -117,6 +121,12 @@ func getRig(c Case) (*rigT, error) {
 			cfg.Translators.Anthropic.MaxMessageSize = 0
 		}
 		cfg.Proxy.ConnectionTimeout = 3 * time.Second
+		if c.Inspector {
+			if inspDir == "" {
+				inspDir, _ = os.MkdirTemp("", "verif-c14-inspector-")
+			}
+			cfg.Translators.Anthropic.Inspector = config.InspectorConfig{Enabled: true, OutputDir: inspDir, SessionHeader: "X-Session-ID"}
+		}
 	}})
 	if err != nil {
 		return nil, err
@@ -126,7 +136,12 @@ func getRig(c Case) (*rigT, error) {
 	return r, nil
 }
 
+var inspDir string
+
 func stopRigs() {
+	if inspDir != "" {
+		defer os.RemoveAll(inspDir)
+	}
 	for _, r := range rigs {
 		r.s.Stop()
 		for _, b := range r.be {
@@ -206,6 +221,17 @@ func runCase(c Case) []ev.Violation {
 	r.mu.Lock()
 	defer r.mu.Unlock()
 	r.seq++
+	if c.Inspector {
+		rec.Class("inspector=enabled")
+		defer func() {
+			// keep the inspector's log small: drop what it wrote for this case
+			if es, err := os.ReadDir(inspDir); err == nil {
+				for _, e := range es {
+					_ = os.RemoveAll(inspDir + "/" + e.Name())
+				}
+			}
+		}()
+	}
 	var se []stack.Endpoint
 	var urls []string
 	dead := 0
@@ -371,6 +397,7 @@ func genCase(t *rapid.T) Case {
 		Sys:         rapid.Bool().Draw(t, "sys"),
 		Turns:       rapid.SampledFrom([]int{1, 3, 5}).Draw(t, "turns"),
 		SizeDefault: rapid.IntRange(0, 3).Draw(t, "sizedefault") == 0,
+		Inspector:   rapid.IntRange(0, 3).Draw(t, "inspector") == 0,
 	}
 	n := rapid.IntRange(1, 4).Draw(t, "n")
 	for i := 0; i < n; i++ {
@@ -411,7 +438,7 @@ func TestC14(t *testing.T) {
 	}
 	types = profiles.Names(profs)
 	defer stopRigs()
-	rec.SetRule("deployments of 1..4 endpoints typed from the shipped profiles (native Anthropic support read from the YAML by the harness), each reachable or refusing connections; passthrough enabled/disabled, stream on/off, two balancers, both engines; all type pairs are enumerated (quick: a quarter per run), larger mixes rapid-generated; typed recording backends tell which path and whether the byte-identical body each endpoint received; X-Olla-Mode and /internal/stats/translators are compared with what was observed. non-trivial = mixed deployment (a reachable native and a reachable non-native endpoint) or a refusing native endpoint; distinct by (engine, passthrough, balancer, stream, deployment)")
+	rec.SetRule("[a quarter of the rapid cases run with translators.anthropic.inspector.enabled] deployments of 1..4 endpoints typed from the shipped profiles (native Anthropic support read from the YAML by the harness), each reachable or refusing connections; passthrough enabled/disabled, stream on/off, two balancers, both engines; all type pairs are enumerated (quick: a quarter per run), larger mixes rapid-generated; typed recording backends tell which path and whether the byte-identical body each endpoint received; X-Olla-Mode and /internal/stats/translators are compared with what was observed. non-trivial = mixed deployment (a reachable native and a reachable non-native endpoint) or a refusing native endpoint; distinct by (engine, passthrough, balancer, stream, deployment)")
 	rec.Assume("the model is registered on every endpoint so model routing does not narrow the candidate set")
 	if ev.Replay(t, rec, "mode", runCase) {
 		return
